@@ -242,8 +242,9 @@ def fxAnnotation : List Isoform :=
 
 def fxNoPolyA : PolyA := ⟨-1, -1, -1, -1⟩
 
-/-- a 5'- and 3'-truncated read of T: starts inside exon 2, ends inside exon 4 -/
-def fxBlocks : List Iv := [(340, 400), (500, 600), (700, 730)]
+/-- a 5'- and 3'-truncated read of T: starts inside exon 2, ends inside exon 4; the first block keeps 4 bases
+    < `minimal_exon_overlap` = 5 (it ends at the exon end: `FollowHyp` has no length condition for spliced reads) -/
+def fxBlocks : List Iv := [(397, 400), (500, 600), (700, 730)]
 
 theorem fx_followsExact : FollowsExact [(100, 200), (300, 400), (500, 600), (700, 800)] fxBlocks := by
   refine ⟨1, ?_⟩
@@ -278,7 +279,7 @@ example : ∃ g T, Gene.fromModels fxAnnotation = some g ∧ g.isos[0]? = some T
   obtain ⟨T, hT0, hTe⟩ := hT
   refine ⟨g, T, hg, hT0, ?_, by decide +kernel⟩
   refine { hg := hg, hwf := ?_, hnn := ?_, hT := List.mem_of_getElem? hT0, hTg := ?_, hδ := by decide, hmao := by decide,
-           hlong := ?_, hB := ?_, hf := ?_, hsep := ?_, hfirst := ?_, hA := rfl, hT' := rfl }
+           hlong := ?_, hB := ?_, hf := ?_, hsep := ?_, hsingle := ?_, hA := rfl, hT' := rfl }
   · intro m hm
     simp [fxAnnotation] at hm
     rcases hm with rfl | rfl | rfl | rfl <;> (constructor <;> simp [SD, WFl])
@@ -292,7 +293,6 @@ example : ∃ g T, Gene.fromModels fxAnnotation = some g ∧ g.isos[0]? = some T
   · rw [hTe]; exact fx_followsExact
   · simp [fxBlocks, junctionsFromBlocks, SepBy, fxParams]
   · intro b hb
-    simp [fxBlocks] at hb; subst hb
-    simp [fxParams, fxBlocks]
+    simp [fxBlocks] at hb
 
 end IsoVerif.Props.C01Follow
